@@ -161,7 +161,11 @@ func (f *Func) AssignIDs() error {
 				got := n.ID()
 				return errors.Errorf("invalid local ID in function %q, expected %s, got %s", f.Ident(), enc.LocalID(want), enc.LocalID(got))
 			}
-			n.SetID(id)
+			if n.ID() != id {
+				// only write when the ID changes, so that printing an already
+				// numbered value from several goroutines performs no write.
+				n.SetID(id)
+			}
 			id++
 		}
 		return nil
